@@ -8,6 +8,7 @@ PROP = {
     ],
     "targets": [
         {"name": "printf_fp", "quick": 1500000, "thorough": 25000000, "maxlen": 64},
+        {"name": "printf_fp_reentrant", "quick": 300000, "thorough": 4000000, "maxlen": 64},
         {"name": "printf_fp_wide", "quick": 300000, "thorough": 4000000, "maxlen": 64},
     ],
     "fuzz": [{"name": "printf_fp", "secs": 90, "maxlen": 64}],
